@@ -339,7 +339,7 @@ var fullCatalogue = []string{
 	"kid-other", "kid-remove", "kid-unknown", "iss-untrusted", "iss-missing", "aud-wrong", "aud-missing", "scope-missing",
 	"scope-char-prefix", "scope-child", "scope-sibling", "scope-dot-prefix", "scope-char-suffix", "scope-ancestor", "scope-one-missing",
 	"exp-far-past", "exp-just-past", "exp-inside-leeway", "exp-zero", "exp-negative", "exp-string", "exp-huge", "exp-missing",
-	"nbf-future", "nbf-inside-leeway", "iat-future", "nbf-beyond-int64", "nbf-2pow63", "exp-year-one", "resign-other-key", "two-parts", "four-parts", "payload-edit-unsigned",
+	"nbf-future", "nbf-inside-leeway", "iat-future", "nbf-beyond-int64", "nbf-2pow63", "nbf-maxint64", "nbf-far-future", "iat-beyond-int64", "iat-maxint64", "exp-year-one", "resign-other-key", "two-parts", "four-parts", "payload-edit-unsigned",
 	"header-edit-unsigned", "sub-swap-unsigned",
 }
 
@@ -545,6 +545,15 @@ func genToken(t *rapid.T, set []keyEntry, eff assertions, now int64, catalogue [
 			tk.Claims["nbf"] = 1e19 // a time far in the future which does not fit into 64 bit seconds
 		case "nbf-2pow63":
 			tk.Claims["nbf"] = json.Number("9223372036854775808")
+		case "nbf-maxint64":
+			tk.Claims["nbf"] = json.Number("9223372036854775807")
+		case "nbf-far-future":
+			// seconds which fit into 64 bit, but are beyond what Go's time.Time can represent without wrapping around
+			tk.Claims["nbf"] = json.Number(rapid.SampledFrom([]string{"9223372000000000000", "9223371974719179008", "9223371974719179007", "9223371036854775807", "253402300800"}).Draw(t, "nbfFar"))
+		case "iat-beyond-int64":
+			tk.Claims["iat"] = 1e19
+		case "iat-maxint64":
+			tk.Claims["iat"] = json.Number(rapid.SampledFrom([]string{"9223372036854775807", "9223372000000000000", "9223371974719179008"}).Draw(t, "iatFar"))
 		case "exp-year-one":
 			tk.Claims["exp"] = -62135596800 // 0001-01-01T00:00:00Z: long ago
 		case "nbf-future":
